@@ -148,6 +148,10 @@ macro_rules! apply_claim {
 
 pub trait VerifierObj {
     fn deliver(&mut self, token: &'static str) -> Outcome;
+    /// `parse(token, key)` with another key on the same (long-lived) object; None = key kind not applicable
+    fn deliver_key(&mut self, token: &'static str, km: &KeyMat, arena: &Arena) -> Option<Outcome>;
+    /// re-configure the live object; `slot` is the validator slot a new validator registration gets
+    fn reconfigure(&mut self, op: &VOp, slot: usize, arena: &Arena) -> bool;
 }
 
 fn ok_str(r: Result<String, PasetoError>) -> Outcome {
@@ -163,30 +167,102 @@ fn ok_json(r: Result<serde_json::Value, GenericParserError>) -> Outcome {
     }
 }
 
-struct CoreV<K: 'static, const ASSERT: bool, F: Fn(&'static str, &'static K, Option<Footer<'static>>, Option<ImplicitAssertion<'static>>) -> Outcome> {
+struct CoreV<K: 'static, const ASSERT: bool, F, M>
+where
+    F: Fn(&'static str, &'static K, Option<Footer<'static>>, Option<ImplicitAssertion<'static>>) -> Outcome,
+    M: Fn(&KeyMat, &Arena) -> Option<&'static K>,
+{
     key: &'static K,
     footer: Option<&'static str>,
     assertion: Option<&'static str>,
     f: F,
+    mk: M,
 }
-impl<K, const A: bool, F> VerifierObj for CoreV<K, A, F>
+impl<K, const A: bool, F, M> VerifierObj for CoreV<K, A, F, M>
 where
     F: Fn(&'static str, &'static K, Option<Footer<'static>>, Option<ImplicitAssertion<'static>>) -> Outcome,
+    M: Fn(&KeyMat, &Arena) -> Option<&'static K>,
 {
     fn deliver(&mut self, token: &'static str) -> Outcome {
         (self.f)(token, self.key, self.footer.map(Footer::from), self.assertion.map(ImplicitAssertion::from))
     }
+    fn deliver_key(&mut self, token: &'static str, km: &KeyMat, arena: &Arena) -> Option<Outcome> {
+        let k = (self.mk)(km, arena)?;
+        Some((self.f)(token, k, self.footer.map(Footer::from), self.assertion.map(ImplicitAssertion::from)))
+    }
+    fn reconfigure(&mut self, op: &VOp, _slot: usize, arena: &Arena) -> bool {
+        match op {
+            VOp::SetFooter(f) => {
+                self.footer = Some(arena.str(f));
+                true
+            }
+            VOp::SetAssertion(a) if A => {
+                self.assertion = Some(arena.str(a));
+                true
+            }
+            _ => false,
+        }
+    }
 }
 
-struct ParserV<P, K: 'static, F: FnMut(&mut P, &'static str, &'static K) -> Outcome> {
+struct ParserV<P, K: 'static, F, M, R>
+where
+    F: FnMut(&mut P, &'static str, &'static K) -> Outcome,
+    M: Fn(&KeyMat, &Arena) -> Option<&'static K>,
+    R: Fn(&mut P, &VOp, usize, &Arena) -> bool,
+{
     parser: P,
     key: &'static K,
     f: F,
+    mk: M,
+    rc: R,
 }
-impl<P, K, F: FnMut(&mut P, &'static str, &'static K) -> Outcome> VerifierObj for ParserV<P, K, F> {
+impl<P, K, F, M, R> VerifierObj for ParserV<P, K, F, M, R>
+where
+    F: FnMut(&mut P, &'static str, &'static K) -> Outcome,
+    M: Fn(&KeyMat, &Arena) -> Option<&'static K>,
+    R: Fn(&mut P, &VOp, usize, &Arena) -> bool,
+{
     fn deliver(&mut self, token: &'static str) -> Outcome {
         (self.f)(&mut self.parser, token, self.key)
     }
+    fn deliver_key(&mut self, token: &'static str, km: &KeyMat, arena: &Arena) -> Option<Outcome> {
+        let k = (self.mk)(km, arena)?;
+        Some((self.f)(&mut self.parser, token, k))
+    }
+    fn reconfigure(&mut self, op: &VOp, slot: usize, arena: &Arena) -> bool {
+        (self.rc)(&mut self.parser, op, slot, arena)
+    }
+}
+
+/// re-configuration of a live GenericParser / PasetoParser
+macro_rules! reconf {
+    ($P:ty, $assert:tt) => {
+        |p: &mut $P, op: &VOp, slot: usize, arena: &Arena| -> bool {
+            match op {
+                VOp::CheckClaim(c) => apply_claim!(p, check_claim, c, arena),
+                VOp::ValidateClaim(vs) => {
+                    if slot >= env::NUM_SLOTS || vs.via != Via::Validate {
+                        false
+                    } else {
+                        apply_claim!(p, validate_claim, &vs.claim, arena, env::slot_fn(slot))
+                    }
+                }
+                VOp::SetFooter(f) => {
+                    p.set_footer(Footer::from(arena.str(f)));
+                    true
+                }
+                VOp::SetAssertion(_a) => reconf!(@assert $assert, p, _a, arena),
+            }
+        }
+    };
+    (@assert yes, $p:ident, $a:ident, $arena:ident) => {{
+        $p.set_implicit_assertion(ImplicitAssertion::from($arena.str($a)));
+        true
+    }};
+    (@assert no, $p:ident, $a:ident, $arena:ident) => {
+        false
+    };
 }
 
 /// configure a GenericParser / PasetoParser from a VerifierSpec
@@ -287,6 +363,9 @@ macro_rules! local_verifier {
         };
         let key: &'static PasetoSymmetricKey<$V, Local> =
             $arena.alloc(PasetoSymmetricKey::<$V, Local>::from(Key::<32>::from(sym)));
+        let mk = |km: &KeyMat, arena: &Arena| -> Option<&'static PasetoSymmetricKey<$V, Local>> {
+            km.sym().map(|s| arena.alloc(PasetoSymmetricKey::<$V, Local>::from(Key::<32>::from(s))))
+        };
         let mut notes: Vec<String> = vec![];
         #[allow(unused_mut)]
         let mut ok = true;
@@ -297,7 +376,7 @@ macro_rules! local_verifier {
                 }
                 let footer = $spec.footer.as_ref().map(|f| $arena.str(f));
                 let assertion = $spec.assertion.as_ref().map(|f| $arena.str(f));
-                let b: Box<dyn VerifierObj> = local_verifier!(@core $V, $assert, key, footer, assertion);
+                let b: Box<dyn VerifierObj> = local_verifier!(@core $V, $assert, key, footer, assertion, mk);
                 if ok { Ok((b, notes)) } else { Err(notes.join("; ")) }
             }
             Layer::Generic => {
@@ -310,6 +389,8 @@ macro_rules! local_verifier {
                     parser: p,
                     key,
                     f: |p: &mut GenericParser<'static, 'static, $V, Local>, t: &'static str, k: &'static PasetoSymmetricKey<$V, Local>| ok_json(p.parse(t, k)),
+                    mk,
+                    rc: reconf!(GenericParser<'static, 'static, $V, Local>, $assert),
                 });
                 Ok((b, notes))
             }
@@ -327,36 +408,41 @@ macro_rules! local_verifier {
                     parser: p,
                     key,
                     f: |p: &mut PasetoParser<'static, $V, Local>, t: &'static str, k: &'static PasetoSymmetricKey<$V, Local>| ok_json(p.parse(t, k)),
+                    mk,
+                    rc: reconf!(PasetoParser<'static, $V, Local>, $assert),
                 });
                 Ok((b, notes))
             }
         }
     }};
-    (@core $V:ident, yes, $key:ident, $footer:ident, $assertion:ident) => {
-        Box::new(CoreV::<_, true, _> {
+    (@core $V:ident, yes, $key:ident, $footer:ident, $assertion:ident, $mk:ident) => {
+        Box::new(CoreV::<_, true, _, _> {
             key: $key,
             footer: $footer,
             assertion: $assertion,
             f: |t, k: &'static PasetoSymmetricKey<$V, Local>, f, a| ok_str(Paseto::<$V, Local>::try_decrypt(t, k, f, a)),
+            mk: $mk,
         })
     };
-    (@core $V:ident, no, $key:ident, $footer:ident, $assertion:ident) => {{
+    (@core $V:ident, no, $key:ident, $footer:ident, $assertion:ident, $mk:ident) => {{
         if $assertion.is_some() {
             return Err("assertion not applicable to v1/v2".into());
         }
-        Box::new(CoreV::<_, false, _> {
+        Box::new(CoreV::<_, false, _, _> {
             key: $key,
             footer: $footer,
             assertion: None,
             f: |t, k: &'static PasetoSymmetricKey<$V, Local>, f, _a| ok_str(Paseto::<$V, Local>::try_decrypt(t, k, f)),
+            mk: $mk,
         })
     }};
 }
 
 #[allow(unused_macros)]
 macro_rules! public_verifier {
-    ($V:ident, $assert:tt, $spec:ident, $key:ident, $arena:ident) => {{
+    ($V:ident, $assert:tt, $spec:ident, $key:ident, $arena:ident, $mkf:expr) => {{
         let key: &'static PasetoAsymmetricPublicKey<'static, $V, Public> = $key;
+        let mk: fn(&KeyMat, &Arena) -> Option<&'static PasetoAsymmetricPublicKey<'static, $V, Public>> = $mkf;
         let mut notes: Vec<String> = vec![];
         #[allow(unused_mut)]
         let mut ok = true;
@@ -367,7 +453,7 @@ macro_rules! public_verifier {
                 }
                 let footer = $spec.footer.as_ref().map(|f| $arena.str(f));
                 let assertion = $spec.assertion.as_ref().map(|f| $arena.str(f));
-                let b: Box<dyn VerifierObj> = public_verifier!(@core $V, $assert, key, footer, assertion);
+                let b: Box<dyn VerifierObj> = public_verifier!(@core $V, $assert, key, footer, assertion, mk);
                 if ok { Ok((b, notes)) } else { Err(notes.join("; ")) }
             }
             Layer::Generic => {
@@ -380,6 +466,8 @@ macro_rules! public_verifier {
                     parser: p,
                     key,
                     f: |p: &mut GenericParser<'static, 'static, $V, Public>, t: &'static str, k: &'static PasetoAsymmetricPublicKey<'static, $V, Public>| ok_json(p.parse(t, k)),
+                    mk,
+                    rc: reconf!(GenericParser<'static, 'static, $V, Public>, $assert),
                 });
                 Ok((b, notes))
             }
@@ -397,28 +485,32 @@ macro_rules! public_verifier {
                     parser: p,
                     key,
                     f: |p: &mut PasetoParser<'static, $V, Public>, t: &'static str, k: &'static PasetoAsymmetricPublicKey<'static, $V, Public>| ok_json(p.parse(t, k)),
+                    mk,
+                    rc: reconf!(PasetoParser<'static, $V, Public>, $assert),
                 });
                 Ok((b, notes))
             }
         }
     }};
-    (@core $V:ident, yes, $key:ident, $footer:ident, $assertion:ident) => {
-        Box::new(CoreV::<_, true, _> {
+    (@core $V:ident, yes, $key:ident, $footer:ident, $assertion:ident, $mk:ident) => {
+        Box::new(CoreV::<_, true, _, _> {
             key: $key,
             footer: $footer,
             assertion: $assertion,
             f: |t, k: &'static PasetoAsymmetricPublicKey<'static, $V, Public>, f, a| ok_str(Paseto::<$V, Public>::try_verify(t, k, f, a)),
+            mk: $mk,
         })
     };
-    (@core $V:ident, no, $key:ident, $footer:ident, $assertion:ident) => {{
+    (@core $V:ident, no, $key:ident, $footer:ident, $assertion:ident, $mk:ident) => {{
         if $assertion.is_some() {
             return Err("assertion not applicable to v1/v2".into());
         }
-        Box::new(CoreV::<_, false, _> {
+        Box::new(CoreV::<_, false, _, _> {
             key: $key,
             footer: $footer,
             assertion: None,
             f: |t, k: &'static PasetoAsymmetricPublicKey<'static, $V, Public>, f, _a| ok_str(Paseto::<$V, Public>::try_verify(t, k, f)),
+            mk: $mk,
         })
     }};
 }
@@ -434,6 +526,43 @@ pub fn make_verifier(spec: &VerifierSpec, km: &KeyMat, arena: &Arena) -> MkV {
     r
 }
 
+#[cfg(feature = "set_a")]
+fn mk_v1p(km: &KeyMat, arena: &Arena) -> Option<&'static PasetoAsymmetricPublicKey<'static, V1, Public>> {
+    let pb = km.public_for(Proto::V1P)?;
+    let bytes: &'static [u8] = arena.bytes(&pb);
+    Some(arena.alloc(PasetoAsymmetricPublicKey::<V1, Public>::from(bytes)))
+}
+#[cfg(feature = "set_a")]
+fn mk_v2p(km: &KeyMat, arena: &Arena) -> Option<&'static PasetoAsymmetricPublicKey<'static, V2, Public>> {
+    let pb = km.public_for(Proto::V2P)?;
+    if pb.len() != 32 {
+        return None;
+    }
+    let k32: &'static Key<32> = arena.alloc(Key::<32>::from(pb.as_slice()));
+    Some(arena.alloc(PasetoAsymmetricPublicKey::<V2, Public>::from(k32)))
+}
+#[cfg(feature = "set_a")]
+fn mk_v4p(km: &KeyMat, arena: &Arena) -> Option<&'static PasetoAsymmetricPublicKey<'static, V4, Public>> {
+    let pb = km.public_for(Proto::V4P)?;
+    if pb.len() != 32 {
+        return None;
+    }
+    let k32: &'static Key<32> = arena.alloc(Key::<32>::from(pb.as_slice()));
+    Some(arena.alloc(PasetoAsymmetricPublicKey::<V4, Public>::from(k32)))
+}
+#[cfg(feature = "set_b")]
+fn mk_v3p(km: &KeyMat, arena: &Arena) -> Option<&'static PasetoAsymmetricPublicKey<'static, V3, Public>> {
+    let pb = km.public_for(Proto::V3P)?;
+    if pb.len() != 49 {
+        return None;
+    }
+    let k49: &'static Key<49> = arena.alloc(Key::<49>::from(pb.as_slice()));
+    match PasetoAsymmetricPublicKey::<V3, Public>::try_from(k49) {
+        Ok(k) => Some(arena.alloc(k)),
+        Err(_) => None,
+    }
+}
+
 fn make_verifier_inner(spec: &VerifierSpec, km: &KeyMat, arena: &Arena) -> MkV {
     match spec.proto {
         Proto::V1L => local_verifier!(V1, no, spec, km, arena),
@@ -442,43 +571,23 @@ fn make_verifier_inner(spec: &VerifierSpec, km: &KeyMat, arena: &Arena) -> MkV {
         Proto::V4L => local_verifier!(V4, yes, spec, km, arena),
         #[cfg(feature = "set_a")]
         Proto::V1P => {
-            let pb = km.public_for(Proto::V1P).ok_or("key kind not applicable (need RSA public)")?;
-            let bytes: &'static [u8] = arena.bytes(&pb);
-            let key = arena.alloc(PasetoAsymmetricPublicKey::<V1, Public>::from(bytes));
-            public_verifier!(V1, no, spec, key, arena)
+            let key = mk_v1p(km, arena).ok_or("key kind not applicable (need RSA public)")?;
+            public_verifier!(V1, no, spec, key, arena, mk_v1p)
         }
         #[cfg(feature = "set_a")]
         Proto::V2P => {
-            let pb = km.public_for(Proto::V2P).ok_or("key kind not applicable (need Ed25519 public)")?;
-            if pb.len() != 32 {
-                return Err("ed25519 public key must be 32 bytes to construct Key<32>".into());
-            }
-            let k32: &'static Key<32> = arena.alloc(Key::<32>::from(pb.as_slice()));
-            let key = arena.alloc(PasetoAsymmetricPublicKey::<V2, Public>::from(k32));
-            public_verifier!(V2, no, spec, key, arena)
+            let key = mk_v2p(km, arena).ok_or("key kind not applicable (need a 32-byte Ed25519 public key)")?;
+            public_verifier!(V2, no, spec, key, arena, mk_v2p)
         }
         #[cfg(feature = "set_a")]
         Proto::V4P => {
-            let pb = km.public_for(Proto::V4P).ok_or("key kind not applicable (need Ed25519 public)")?;
-            if pb.len() != 32 {
-                return Err("ed25519 public key must be 32 bytes to construct Key<32>".into());
-            }
-            let k32: &'static Key<32> = arena.alloc(Key::<32>::from(pb.as_slice()));
-            let key = arena.alloc(PasetoAsymmetricPublicKey::<V4, Public>::from(k32));
-            public_verifier!(V4, yes, spec, key, arena)
+            let key = mk_v4p(km, arena).ok_or("key kind not applicable (need a 32-byte Ed25519 public key)")?;
+            public_verifier!(V4, yes, spec, key, arena, mk_v4p)
         }
         #[cfg(feature = "set_b")]
         Proto::V3P => {
-            let pb = km.public_for(Proto::V3P).ok_or("key kind not applicable (need P-384 public)")?;
-            if pb.len() != 49 {
-                return Err("p384 public key must be 49 bytes to construct Key<49>".into());
-            }
-            let k49: &'static Key<49> = arena.alloc(Key::<49>::from(pb.as_slice()));
-            let key = match PasetoAsymmetricPublicKey::<V3, Public>::try_from(k49) {
-                Ok(k) => arena.alloc(k),
-                Err(_) => return Err("key constructor refused the public key (first byte not 02/03)".into()),
-            };
-            public_verifier!(V3, yes, spec, key, arena)
+            let key = mk_v3p(km, arena).ok_or("key kind not applicable / constructor refused the P-384 public key")?;
+            public_verifier!(V3, yes, spec, key, arena, mk_v3p)
         }
         #[allow(unreachable_patterns)]
         _ => Err("protocol not compiled".into()),
@@ -826,27 +935,38 @@ impl World {
         }
     }
 
-    fn deliver_to(&mut self, obj: &mut Box<dyn VerifierObj>, spec: &VerifierSpec, text: &'static str, now: i128, ticks: &[Ns]) -> DeliverObs {
+    fn deliver_to(&mut self, obj: &mut Box<dyn VerifierObj>, spec: &VerifierSpec, text: &'static str, now: i128, ticks: &[Ns], key: Option<usize>) -> Option<DeliverObs> {
         let t: Vec<i128> = ticks.iter().map(|x| x.0).collect();
         env::set_clock(now, &t);
         env::set_validators(validator_table(spec));
-        let outcome = match env::guarded(|| obj.deliver(text)) {
-            Ok(o) => o,
-            Err(at) => Outcome::Panic { at },
+        let outcome = match key {
+            None => match env::guarded(|| obj.deliver(text)) {
+                Ok(o) => o,
+                Err(at) => Outcome::Panic { at },
+            },
+            Some(k) => {
+                let km = self.keys.get(k)?.clone();
+                let arena = &self.arena;
+                match env::guarded(|| obj.deliver_key(text, &km, arena)) {
+                    Ok(Some(o)) => o,
+                    Ok(None) => return None,
+                    Err(at) => Outcome::Panic { at },
+                }
+            }
         };
         let calls = env::take_validator_calls()
             .into_iter()
             .map(|c| CallObs { slot: c.slot, key: c.key, value: c.value, returned_ok: c.returned_ok })
             .collect();
         let reads = reads_obs(env::take_clock_reads());
-        DeliverObs { outcome, calls, reads }
+        Some(DeliverObs { outcome, calls, reads })
     }
 
-    fn fresh_and_deliver(&mut self, spec: &VerifierSpec, text: &'static str, now: i128, ticks: &[Ns]) -> Option<DeliverObs> {
+    fn fresh_and_deliver(&mut self, spec: &VerifierSpec, text: &'static str, now: i128, ticks: &[Ns], key: Option<usize>) -> Option<DeliverObs> {
         let km = self.keys.get(spec.key)?.clone();
         let made = env::guarded(|| make_verifier(spec, &km, &self.arena));
         match made {
-            Ok(Ok((mut obj, _))) => Some(self.deliver_to(&mut obj, spec, text, now, ticks)),
+            Ok(Ok((mut obj, _))) => self.deliver_to(&mut obj, spec, text, now, ticks, key),
             Ok(Err(_)) => None,
             Err(at) => Some(DeliverObs { outcome: Outcome::Panic { at }, calls: vec![], reads: vec![] }),
         }
@@ -981,7 +1101,32 @@ impl World {
                     Err(at) => Obs::NewVerifier { ok: false, notes: vec![format!("panic at {}", at)] },
                 }
             }
-            Op::Deliver { msg, to, now_ns, ticks, twin, control } => {
+            Op::Reconfigure { v, op } => {
+                let arena = &self.arena;
+                let slot = match self.verifiers.get_mut(v) {
+                    Some(s) => s,
+                    None => return Obs::Skipped("no such verifier".into()),
+                };
+                let obj = match slot.obj.as_mut() {
+                    Some(o) => o,
+                    None => return Obs::Skipped("verifier object was discarded".into()),
+                };
+                let vslot = slot.spec.validators.len();
+                let applied = match env::guarded(|| obj.reconfigure(op, vslot, arena)) {
+                    Ok(a) => a,
+                    Err(_) => false,
+                };
+                if applied {
+                    match op {
+                        VOp::CheckClaim(c) => slot.spec.expect.push(c.clone()),
+                        VOp::ValidateClaim(vs) => slot.spec.validators.push(vs.clone()),
+                        VOp::SetFooter(f) => slot.spec.footer = Some(f.clone()),
+                        VOp::SetAssertion(a) => slot.spec.assertion = Some(a.clone()),
+                    }
+                }
+                Obs::Reconfigure { applied }
+            }
+            Op::Deliver { msg, to, now_ns, ticks, twin, control, key } => {
                 let text = match self.msgs.get(msg) {
                     Some(s) => *s,
                     None => return Obs::Skipped("no such message".into()),
@@ -1003,19 +1148,25 @@ impl World {
                     }
                     None => return Obs::Skipped("no such verifier".into()),
                 };
-                let main = self.deliver_to(&mut obj, &spec, text, now_ns.0, ticks);
+                let main = match self.deliver_to(&mut obj, &spec, text, now_ns.0, ticks, *key) {
+                    Some(m) => m,
+                    None => {
+                        self.verifiers.get_mut(to).unwrap().obj = Some(obj);
+                        return Obs::Skipped("key kind not applicable".into());
+                    }
+                };
                 if !main.outcome.is_panic() {
                     self.verifiers.get_mut(to).unwrap().obj = Some(obj);
                 }
                 let twin_obs = if *twin {
                     let mut ts = spec.clone();
                     ts.hash_seed = spec.hash_seed ^ 0x5bd1_e995_9e37_79b9;
-                    self.fresh_and_deliver(&ts, text, now_ns.0, ticks)
+                    self.fresh_and_deliver(&ts, text, now_ns.0, ticks, *key)
                 } else {
                     None
                 };
                 let control_obs = match control {
-                    Some(cs) => self.fresh_and_deliver(cs, text, now_ns.0, ticks),
+                    Some(cs) => self.fresh_and_deliver(cs, text, now_ns.0, ticks, None),
                     None => None,
                 };
                 Obs::Deliver { main, twin: twin_obs, control: control_obs }
